@@ -269,7 +269,7 @@ def check_placement(case, acc):
                 if mode == "warning" and (ehit or fhit) and not ours:
                     problems.setdefault(("warning-emitted", "missing-group"), f"{tag}: no warning for an unseen level in the group part")
     set_mode("error")
-    acc.bulk(max(n - 1, 0), "placements")
+    acc.subcases(case, n - 1, True, "placements-x-modes")
     nontriv = any(t in d for t in (":", "*", "/", "(f", "f|", "S(", "T(", "C("))
     if problems:
         acc.case(case, "MISMATCH", sample=False)
@@ -328,7 +328,7 @@ def check_history(case, acc):
                 if mode == "silent" and ours:
                     problems.setdefault(("mode-at-evaluation-time", "warned"), f"{tag}: warning in silent mode")
     set_mode("error")
-    acc.bulk(max(nh - 1, 0), "histories")
+    acc.subcases(case, nh - 1, True, "histories")
     if problems:
         acc.case(case, "MISMATCH", sample=False)
         for (clause, sig), msg in problems.items():
